@@ -169,6 +169,7 @@ Qed.
 Lemma expand_apk_returns ms g : Returns (expand_apk ms g).
 Proof.
   unfold expand_apk. apply returns_bind; [apply expand_loop_returns|]. intros n _.
+  destruct (arm_refuses _ _ _); [apply returns_err|].
   apply returns_bind; [apply expand_select_returns|]. intros sg _. destruct (sections_ok ms n); [apply returns_ok|apply returns_err].
 Qed.
 (* the loop never collects more members than the stream limit: len(gzipStreams) <= 3 *)
